@@ -262,7 +262,7 @@ def needed_goldens(histories):
 
 
 def estimate_cost(h):
-    c = 2.0 + {"warm": 0, "toolchain": 14, "empty": 40}[h.get("init_cache", "warm")]
+    c = 2.0 + {"warm": 0, "nodep": 2, "toolchain": 14, "empty": 40}[h.get("init_cache", "warm")]
     for s in h["steps"]:
         if s["op"] == "exec":
             c += 4.0
